@@ -222,6 +222,8 @@ ROUTES = {
         "extract": ("thin", lambda t: t.extract_tree()),
         "extract_noattr": ("thin", lambda t: t.extract_tree(extraction_source_reference_attr_name=None)),
         "extract_keepunif": ("thin", lambda t: t.extract_tree(suppress_unifurcations=False)),
+        # the caller names the factories (plain classes here): what is copied may not depend on who builds the objects
+        "extract_factories": ("thin", lambda t: t.extract_tree(tree_factory=dendropy.Tree, node_factory=dendropy.Node)),
     },
     "treelist": {
         "deepcopy": ("deep", lambda x: copy.deepcopy(x)),
@@ -652,7 +654,7 @@ def eval_job(job):
     if w:
         out.append(["wiring", "; ".join(sorted(set(w)))[:400]])
     # ---- heap separation
-    skip = ("extraction_source",) if route in ("extract", "extract_keepunif") else ()
+    skip = ("extraction_source",) if route in ("extract", "extract_keepunif", "extract_factories") else ()
     r_src = C.reach(src)
     r_cp = C.reach(cp, skip_attrs=skip)
     shared = [r_src[i] for i in r_src if i in r_cp]
